@@ -947,6 +947,9 @@ func NewVFS() *VFS {
 	return &VFS{Files: map[string]Str{}, Dirs: map[string]bool{"/": true}, Cwd: "/work", Exe: "/vfs/bin/tsh"}
 }
 
+// Abs is the absolute, cleaned form of a path of the virtual file system.
+func (fs *VFS) Abs(p string) string { return fs.norm(p) }
+
 func (fs *VFS) norm(p string) string {
 	if !filepath.IsAbs(p) {
 		p = filepath.Join(fs.Cwd, p)
